@@ -2,7 +2,7 @@
 (* Enumerates the option space of every client request (C01) and writes, per case, the option    *)
 (* record together with what MqttWire says the written packet must be.  Evaluated by TLC as       *)
 (* ASSUMEs (no behaviour): `tlc -config WireGenTx.cfg WireGenTx.tla` with IOEnv.OUTDIR and TIER.  *)
-EXTENDS MqttWire, Json, IOUtils, Sequences, Randomization
+EXTENDS MqttWire, Json, IOUtils, Sequences, SequencesExt, Randomization
 
 Thorough == IOEnv.TIER = "thorough"
 Out(name) == IOEnv.OUTDIR \o "/" \o name
